@@ -39,7 +39,7 @@ def run(ctx):
     pe = PathEnumerator(add, prog, ctx.summ)
     n = 0
     probs_len, probs_idx, probs_val = [], [], []
-    n_push = n_store = 0
+    n_push = n_store = n_infeasible = 0
     _lem = []
 
     def gap_lemma():
@@ -54,6 +54,15 @@ def run(ctx):
         n += 1
         facts = pe.path_facts(p)
         fd = {repr(c): t for c, t in facts}
+        # induction hypothesis at entry of add: len(reservoir) == min(i, k) (its step is what R18-length decides below), so a
+        # path that assumes `len < k` together with `i >= k`, or `len >= k` together with `i < k`, is infeasible
+        _lk, _ik = fv(fd, fill_len), fv(fd, fill)
+        if _lk is not None and _ik is not None and _lk != _ik:
+            n_infeasible += 1
+            continue
+        if _lk is True and fv(fd, mk("Le", i_f, k_f)) is False:
+            n_infeasible += 1
+            continue
         if repr(fill) not in fd and repr(fill_len) in fd:
             fd[repr(fill)] = fd[repr(fill_len)]
         ws = [e for e in p.events if e["kind"] == "write" and e["root"] == SELF]
@@ -129,7 +138,8 @@ def run(ctx):
         ctx.check(kind in allowed, "R18-no-panic", "%s:%s" % (add.key, kind), span,
                   "%s — arithmetic overflow check on usize counters (needs a stream of ~2^62 items)" % kind,
                   "add can panic: %s %s" % (kind, detail or ""))
-    ctx.floor("R18-no-panic", len(ps), 3, "arithmetic checks in add (k*4, i+1, i+g)")
+    # with overflow checks compiled out (the thorough tier's release-like configuration) these assertions do not exist in the MIR
+    ctx.floor("R18-no-panic", len(ps), 3 if prog.overflow_checks else 0, "arithmetic checks in add (k*4, i+1, i+g)")
     # gen_range ranges are non-empty: end is k, i or i+1 (on paths with i >= k >= 1), or a float literal range
     tb = TermBuilder(add, prog)
     for bi, t in add.calls():
